@@ -20,6 +20,12 @@ results = []
 
 def apply(root, edits):
     for (f, old, new) in edits:
+        if f == "@patch":
+            # a whole patch (one of the refactorings kept under selftest/refactors/), possibly followed by literal edits
+            pf = os.path.join(os.path.dirname(os.path.abspath(__file__)), old)
+            if subprocess.run("patch -p1 -s < %s" % pf, shell=True, cwd=root).returncode != 0:
+                return "patch %s does not apply" % old
+            continue
         p = os.path.join(root, f)
         s = open(p).read()
         if s.count(old) != 1:
